@@ -13,6 +13,7 @@ import ChessVerif.Proofs.FenCount
 import ChessVerif.Proofs.FenUci
 import ChessVerif.Proofs.FenRound
 import ChessVerif.Proofs.FenFields
+import ChessVerif.Proofs.FenRoundFull
 
 namespace ChessVerif.Props.C11
 open ChessVerif Fen UciPosition
@@ -204,5 +205,91 @@ example : (do let s ← sep "8 b KQkq e3 12 34".toUTF8.data ⟨1, Board.empty⟩
     (by decide) (by decide) (by decide) (by decide) (by decide) (by decide) (by decide)
   rw [h]
   decide
+
+/-! ### the full round trip (placement field + digit/square-name bridge)
+
+  These theorems supersede the PARTIAL remarks above: `Fen.C11_roundtrip_full` and
+  `Fen.C11_print_parse_full` are proved (`roundtrip_full`, `print_parse_full`). -/
+
+/-- **Printing any valid position as FEN and parsing it back yields the same position** — placement
+    (all three encodings `sq`/`pieces`/`colors`), side to move, rights, en-passant target and both
+    counters; only the hash history, which `ParseFEN` does not fill, is dropped.  The bound on the move
+    number is the range of the Go `int` that `counter()` accumulates in. -/
+theorem parse_print (b : Board) (hv : Board.valid b = true) (h63 : b.fullMoves < 2 ^ 63) :
+    parseFEN (printFEN b).toUTF8.data = .ok { b with hashes := [] } :=
+  Fen.roundtrip_full b hv h63
+
+/-- the same as the statement fixed earlier (`Fen.C11_roundtrip_full`). -/
+theorem roundtrip_full : C11_roundtrip_full := Fen.roundtrip_full
+
+/-- **Parsing a canonical FEN and printing it returns the same text**: for every text in the image of
+    `printFEN` on valid boards the parse succeeds and printing the result gives the text back. -/
+theorem print_parse (text : String) (b : Board) (hv : Board.valid b = true) (h63 : b.fullMoves < 2 ^ 63)
+    (ht : text = printFEN b) :
+    ∃ b', parseFEN text.toUTF8.data = .ok b' ∧ printFEN b' = text := by
+  subst ht
+  exact ⟨_, parse_print b hv h63, rfl⟩
+
+/-- … in the form fixed earlier (`Fen.C11_print_parse_full`). -/
+theorem print_parse_full : C11_print_parse_full := print_parse_full_of_roundtrip_full roundtrip_full
+
+/-- the round trip needs only the representation invariant and the ranges of the scalar fields
+    (`Rules.valid` is used for nothing else). -/
+theorem parse_print_of_wf (b : Board) (hw : b.wf = true) (hep : b.ep < 64) (h0 : 0 ≤ b.fifty) (h100 : b.fifty ≤ 100)
+    (h1 : 1 ≤ b.fullMoves) (h63 : b.fullMoves < 2 ^ 63) :
+    parseFEN (printFEN b).toUTF8.data = .ok { b with hashes := [] } :=
+  Fen.roundtrip_of_wf b ((Board.wf_iff b).2 hw) hep h0 h100 h1 h63
+
+/-- **The placement field on its own**: on any input that starts with the printed placement of a
+    well-formed board followed by a space, `position()` (run from the empty board) stops at the space
+    having rebuilt exactly the three placement encodings of `b` and touched nothing else. -/
+theorem parse_print_placement (fen : Bytes) (b : Board) (hw : b.wf = true) (t : List UInt8)
+    (h : rest fen 0 = bytesOf (placementStr b) ++ 32 :: t) :
+    ∃ b', position fen ⟨0, Board.empty⟩ = .ok ⟨(bytesOf (placementStr b)).length, b'⟩ ∧
+      b'.sq = b.sq ∧ b'.pieces = b.pieces ∧ b'.colors = b.colors ∧ SameScalars Board.empty b' :=
+  Fen.position_print fen b ((Board.wf_iff b).2 hw) t h
+
+/-- **The digits bridge**: `counter()` reads the printed decimal text of a counter `0 ≤ x < 2^63`
+    (followed by a space or the end of the input) back as exactly `x`. -/
+theorem counter_toString (fen : Bytes) (ix : Nat) (x : Int) (t : List UInt8) (h0 : 0 ≤ x) (hx : x < 2 ^ 63)
+    (ht : t = [] ∨ ∃ t', t = 32 :: t') (hr : rest fen ix = bytesOf (toString x) ++ t) :
+    counter fen ix = .ok (ix + (bytesOf (toString x)).length, x) :=
+  Fen.counter_toString fen ix x t h0 hx ht hr
+
+/-- **The UCI position command accepts the FEN of every valid position** — now unconditionally. -/
+theorem position_installs_valid_full (K : Keys) (cur b : Board) (hv : b.valid = true) (h63 : b.fullMoves < 2 ^ 63) :
+    handlePositionS K cur ("fen" :: printFields b) = (stripHash b).resetHash K ∧
+    (handlePositionS K cur ("fen" :: printFields b)).abs = b.abs :=
+  position_installs_valid K cur b hv (roundtrip_full b hv h63)
+
+-- non-vacuity: the kernel-checked positions above are instances of the theorem …
+example : startB.valid = true ∧ startB.fullMoves < 2 ^ 63 := by decide +kernel
+example : RoundTripOK startB := roundtrip_full startB (by decide +kernel) (by decide +kernel)
+example : RoundTripOK kiwi := roundtrip_full kiwi (by decide +kernel) (by decide +kernel)
+example : RoundTripOK nineQ := roundtrip_full nineQ (by decide +kernel) (by decide +kernel)
+example : RoundTripOK epB := roundtrip_full epB (by decide +kernel) (by decide +kernel)
+example : ∃ b', parseFEN "rnbqkbnr/ppp1pppp/8/8/3pP3/8/PPPP1PPP/RNBQKBNR b KQkq e3 0 3".toUTF8.data = .ok b' ∧
+    printFEN b' = "rnbqkbnr/ppp1pppp/8/8/3pP3/8/PPPP1PPP/RNBQKBNR b KQkq e3 0 3" :=
+  print_parse _ epB (by decide +kernel) (by decide +kernel) (by decide +kernel)
+
+/-- … and so is a position at the very edge of the counter range (19-digit move number, clock 100). -/
+def lateB : Board := { kiwi with fifty := 100, fullMoves := 9223372036854775807 }
+example : lateB.valid = true := by decide +kernel
+example : parseFEN (printFEN lateB).toUTF8.data = .ok { lateB with hashes := [] } :=
+  parse_print lateB (by decide +kernel) (by decide +kernel)
+-- the bound is sharp: at 2^63 the Go `int` wraps negative and `ParseFEN` rejects its own print
+example : parseFEN (printFEN { kiwi with fullMoves := 9223372036854775808 }).toUTF8.data = .err := by decide +kernel
+
+-- the placement field of the nine-queen position in front of arbitrary other text
+example : ∃ b', position (placementStr nineQ ++ " rest of the line").toUTF8.data ⟨0, Board.empty⟩ =
+      .ok ⟨(bytesOf (placementStr nineQ)).length, b'⟩ ∧
+    b'.sq = nineQ.sq ∧ b'.pieces = nineQ.pieces ∧ b'.colors = nineQ.colors ∧ SameScalars Board.empty b' :=
+  parse_print_placement _ nineQ (by decide +kernel) "rest of the line".toUTF8.data.toList (by
+    rw [rest_zero, bytesOf_append]
+    exact congrArg _ (by decide +kernel))
+
+-- the digits bridge on "… 9223372036854775807"
+example : counter "w 9223372036854775807".toUTF8.data 2 = .ok (21, 9223372036854775807) :=
+  counter_toString _ 2 9223372036854775807 [] (by decide) (by decide) (Or.inl rfl) (by decide +kernel)
 
 end ChessVerif.Props.C11
